@@ -9,7 +9,7 @@ seed = "0"
 if "--seed" in args:
     i = args.index("--seed"); seed = args[i + 1]; del args[i:i + 2]
 ids = args or sorted(os.listdir(os.path.join(VERIF, "seeded")))
-if subprocess.run(["git", "-C", "/repo", "status", "--porcelain", "--untracked-files=no"], capture_output=True, text=True).stdout.strip():
+if subprocess.run(["git", "-C", os.environ.get("VERIF_REPO", "/repo"), "status", "--porcelain", "--untracked-files=no"], capture_output=True, text=True).stdout.strip():
     sys.exit("/repo working tree is not clean")
 missed = []
 for sid in ids:
@@ -20,7 +20,7 @@ for sid in ids:
     meta = json.load(open(meta_p))
     cmd = (meta.get("detection") or {}).get("check") or f"./check {meta['property']} --tier quick"
     check_prop = cmd.split()[1]
-    r = subprocess.run(["git", "-C", "/repo", "apply", os.path.join(out, "patch.diff")], capture_output=True, text=True)
+    r = subprocess.run(["git", "-C", os.environ.get("VERIF_REPO", "/repo"), "apply", os.path.join(out, "patch.diff")], capture_output=True, text=True)
     if r.returncode != 0:
         meta["detection"] = {"error": "patch does not apply to the current tree: " + r.stderr[:200]}
         missed.append(sid)
@@ -36,7 +36,7 @@ for sid in ids:
             if c.returncode != 1:
                 missed.append(sid)
         finally:
-            subprocess.run(["git", "-C", "/repo", "checkout", "--", "."])
+            subprocess.run(["git", "-C", os.environ.get("VERIF_REPO", "/repo"), "checkout", "--", "."])
             subprocess.run(["git", "-C", VERIF, "checkout", "--", "evidence"])
     d = meta["detection"]
     print(sid, d.get("exit"), "detected" if d.get("detected") else "MISSED", "input" if d.get("with_failing_input") else "no-input", flush=True)
